@@ -72,7 +72,7 @@ func readDiff(s string) (Diff, error) {
 		// Process line.
 		switch header {
 		case "^":
-			if state == ADD || state == REMOVE {
+			if state == ADD || state == REMOVE || state == AFTER {
 				// Save the previous diff element.
 				err := checkDiffElement(de)
 				if err != nil {
